@@ -3,6 +3,7 @@
 //   cells c0..c3 hold nodes; every thread owns guards g0..g3.
 // ops:  acq<c>:<g>   g.acquire(cell c)           acqe<c>:<g>  g.acquire_if_equal(cell c, value just loaded)
 //       rst<g>       g.reset()                   cpy<g>:<h>   h = g          mov<g>:<h>  h = std::move(g)
+//       nul<c>:<m>   unlink the object of cell c leaving a marked null pointer (mark m) behind; retire the object
 //       swg<g>:<h>   g.swap(h)                   sfa<g>       g = g (self assignment)
 //       swp<c>:<g>   acquire cell c, replace the node by a fresh one (CAS), retire the old one through g
 //       tch<g>       dereference g               rgn1 / rgn0  enter / leave a region_guard
@@ -45,7 +46,7 @@ struct Client {
   using MP = typename CP::marked_ptr;
   CP cells[NC];
 
-  static long oid(const G& g) { return g ? g->id : 0; }
+  static long oid(const G& g) { return g.get() ? g->id : 0; }   // a guard may hold a marked null pointer (operator bool is true then)
   static int gk(int g) { return xv::tid() * 10 + g; }
 
   template <class Gd> static void do_reclaim(Gd& g, long id) {
@@ -81,7 +82,7 @@ struct Client {
         th.g[b].acquire(cells[a], std::memory_order_acquire);
         open_call = false; xv::ret(0, gval(th.g[b]));
         xv::ev("ev", "set", gk(b), oid(th.g[b]));
-        if (th.g[b]) xv::ev("ev", "touch", th.g[b]->magic == 0xA11CE, th.g[b]->id);
+        if (th.g[b].get()) xv::ev("ev", "touch", th.g[b]->magic == 0xA11CE, th.g[b]->id);
       } else if (n == "mrk") {       // set the mark bits of the pointer in cell a to b (the object stays the same)
         xv::call("setmark", a, b);
         MP cur = cells[a].load(std::memory_order_relaxed); bool ok = false;
@@ -96,7 +97,7 @@ struct Client {
         xv::ev("ev", "set", gk(b), oid(th.g[b]));
         if (!ok && th.g[b]) xv::ev("ev", "bad", 1, 0);            // must be empty after failure
         if (ok && MP(th.g[b]) != exp) xv::ev("ev", "bad", 2, 0);    // snapshot equals expected
-        if (th.g[b]) xv::ev("ev", "touch", th.g[b]->magic == 0xA11CE, th.g[b]->id);
+        if (th.g[b].get()) xv::ev("ev", "touch", th.g[b]->magic == 0xA11CE, th.g[b]->id);
       } else if (n == "rst") {
         xv::ev("ev", "rel", gk(a)); th.g[a].reset();
       } else if (n == "cpy") {
@@ -113,17 +114,17 @@ struct Client {
       } else if (n == "cgd") {
         G tmp(th.g[b]);   // copy construction: shared protection
         xv::ev("ev", "set", gk(NG) , oid(tmp));
-        if (tmp) xv::ev("ev", "touch", tmp->magic == 0xA11CE, tmp->id);
+        if (tmp.get()) xv::ev("ev", "touch", tmp->magic == 0xA11CE, tmp->id);
         xv::ev("ev", "rel", gk(NG));
       } else if (n == "tch") {
-        if (th.g[a]) xv::ev("ev", "touch", th.g[a]->magic == 0xA11CE, th.g[a]->id);
+        if (th.g[a].get()) xv::ev("ev", "touch", th.g[a]->magic == 0xA11CE, th.g[a]->id);
       } else if (n == "swp") {
         xv::ev("ev", "rel", gk(b));
         xv::call("acquire", a); open_call = true;
         th.g[b].acquire(cells[a], std::memory_order_acquire);
         open_call = false; xv::ret(0, gval(th.g[b]));
         xv::ev("ev", "set", gk(b), oid(th.g[b]));
-        if (th.g[b]) {
+        if (th.g[b].get()) {
           xv::ev("ev", "touch", th.g[b]->magic == 0xA11CE, th.g[b]->id);
           N* fresh = new N; long fid = fresh->id; long old = th.g[b]->id;
           MP exp = th.g[b];
@@ -139,6 +140,22 @@ struct Client {
             delete fresh;
           }
         }
+      } else if (n == "nul") {       // unlink the object of cell a, leaving a MARKED NULL pointer (mark b) behind, and retire it
+        G tmp;
+        xv::ev("ev", "rel", gk(NG));
+        xv::call("acquire", a); open_call = true;
+        tmp.acquire(cells[a], std::memory_order_acquire);
+        open_call = false; xv::ret(0, gval(tmp));
+        xv::ev("ev", "set", gk(NG), oid(tmp));
+        if (tmp.get()) {
+          xv::ev("ev", "touch", tmp->magic == 0xA11CE, tmp->id);
+          long old = tmp->id; MP exp = tmp; long eb = mval(exp);
+          xv::call("cas", a * 1000 + eb, 100 * b);
+          bool ok = cells[a].compare_exchange_strong(exp, MP(nullptr, (uintptr_t)b), std::memory_order_release, std::memory_order_relaxed);
+          xv::ret(ok, ok ? eb : 0);
+          if (ok) { xv::ev("ev", "rel", gk(NG)); xv::ev("ev", "retire", 0, old); do_reclaim(tmp, old); }
+        }
+        xv::ev("ev", "rel", gk(NG));
       } else if (n == "rgn") {
         if (a) th.rg.emplace(); else th.rg.reset();
       } else if (n == "sig") {        // harness-level ordering between client threads (directed scenarios): set flag a
@@ -154,7 +171,7 @@ struct Client {
       xv::ev("ev", "throw", gk(tg), K);
       if (open_call) xv::ev("abort", "exception");
       // whatever the throwing guard holds now is what it claims to protect
-      if (th.g[tg]) { xv::ev("ev", "set", gk(tg), oid(th.g[tg])); xv::ev("ev", "touch", th.g[tg]->magic == 0xA11CE, th.g[tg]->id); }
+      if (th.g[tg].get()) { xv::ev("ev", "set", gk(tg), oid(th.g[tg])); xv::ev("ev", "touch", th.g[tg]->magic == 0xA11CE, th.g[tg]->id); }
     }
     log_gs(th);
   }
@@ -188,7 +205,7 @@ xv::Scenario make_scn(const drv::Program& p, bool gs) {
     // unlink and retire what is still reachable
     for (int i = 0; i < NC; i++) {
       G g; g.acquire((*c)->cells[i], std::memory_order_acquire);
-      if (g) { long id = g->id; xv::call("store", i, 0); (*c)->cells[i].store(nullptr, std::memory_order_release); xv::ret(0, 0); xv::ev("ev", "retire", 0, id); C::do_reclaim(g, id); }
+      if (g.get()) { long id = g->id; xv::call("store", i, 0); (*c)->cells[i].store(nullptr, std::memory_order_release); xv::ret(0, 0); xv::ev("ev", "retire", 0, id); C::do_reclaim(g, id); }
     }
     // public-API flush: idle guard cycles on a live object, one retire cycle, idle cycles again
     N* live = new N; typename C::CP dc(live);
